@@ -6,6 +6,7 @@ import (
 	"encoding/hex"
 	"encoding/json"
 	"fmt"
+	"strings"
 
 	"github.com/ethereum/go-ethereum/crypto"
 	"github.com/tellor-io/layer/app"
@@ -18,9 +19,9 @@ import (
 // are checked inside the executor, where the handlers are called.)
 type OracleC17 struct {
 	counters
-	prevEVM   map[string][]byte   // operator -> evm address
-	prevVS    map[uint64][][]byte // checkpoint timestamp -> slots
-	prevAtt   map[string][][]byte // snapshot -> slots
+	prevEVM   map[string][]byte         // operator -> evm address
+	prevVS    map[uint64][][]byte       // checkpoint timestamp -> slots
+	prevAtt   map[string][][]byte       // snapshot -> slots
 	sizedFrom map[string][]EvmValidator // snapshot -> the set its slot array was sized from
 	prevSaved []EvmValidator
 }
@@ -191,11 +192,16 @@ func (o *OracleC17) AfterBlock(c *Chain, b *BlockCtx) []*Violation {
 			}
 			o.count("valset_signature_slots_checked")
 			// the sender: an injected entry (operator, ts, sig) with exactly these bytes
+			// the sender: an injected entry (operator, ts, sig) with exactly these bytes; several validators may have
+			// sent identical bytes (a Byzantine validator replaying another's public extension), so the slot is
+			// rightly written if ANY of those senders owns it
 			var sender string
 			if haveInj {
 				for i, op := range inj.ValsetSigs.OperatorAddresses {
 					if i < len(inj.ValsetSigs.Timestamps) && i < len(inj.ValsetSigs.Signatures) && uint64(inj.ValsetSigs.Timestamps[i]) == ts && inj.ValsetSigs.Signatures[i] == hex.EncodeToString(slots[j]) {
-						sender = op
+						if sender == "" || (j < len(ps) && bytes.Equal(curEVM[op], ps[j].Addr)) {
+							sender = op
+						}
 					}
 				}
 			}
@@ -204,7 +210,7 @@ func (o *OracleC17) AfterBlock(c *Chain, b *BlockCtx) []*Violation {
 				continue
 			}
 			if j >= len(ps) || !bytes.Equal(curEVM[sender], ps[j].Addr) {
-				out = append(out, o.v(b.H, "state", "BridgeValsetSignaturesMap", "signature-in-foreign-slot", "checkpoint %d: signature sent by %s landed in slot %d, which belongs to another member of the previous set", ts, sender, j))
+				out = append(out, o.v(b.H, "state", "BridgeValsetSignaturesMap", "signature-in-foreign-slot", "checkpoint %d: signature sent by %s (evm %x) landed in slot %d, which belongs to another member of the previous set %v; injected valset sigs: %v %v", ts, sender, curEVM[sender], j, fmtSet(ps), inj.ValsetSigs.OperatorAddresses, inj.ValsetSigs.Timestamps))
 				continue
 			}
 			if _, ok := RelayerSig(slots[j], params.Checkpoint, ps[j].Addr); !ok {
@@ -217,21 +223,29 @@ func (o *OracleC17) AfterBlock(c *Chain, b *BlockCtx) []*Violation {
 	for snap, slots := range curAtt {
 		old, existed := o.prevAtt[snap]
 		if !existed {
-			// slot array sized now: from the saved bridge set at creation (requests inside transactions see the set saved before this block)
-			set := saved
-			for i, tr := range b.Txs {
-				in := c.IntentOfTx(b, i)
-				if in == nil || tr.Code != 0 {
-					continue
-				}
-				for _, m := range in.Msgs {
-					if m.K == "request_attestations" && len(o.prevSaved) == len(slots) {
-						set = o.prevSaved
+			// The slot array is sized from the saved bridge set at creation time: for snapshots requested by a
+			// transaction that is the set saved before this block, for end-of-block snapshots the set saved now.
+			// When the two differ and the origin cannot be told from the length, the snapshot is not judged.
+			fromTx := false
+			if d, err := bk.AttestSnapshotDataMap.Get(v.ctx, []byte(snap)); err == nil {
+				for i, tr := range b.Txs {
+					in := c.IntentOfTx(b, i)
+					if in == nil || tr.Code != 0 {
+						continue
+					}
+					for _, m := range in.Msgs {
+						if m.K == "request_attestations" && m.V == fmt.Sprint(d.Timestamp) && strings.EqualFold(strings.TrimPrefix(m.S, "0x"), hex.EncodeToString(d.QueryId)) {
+							fromTx = true
+						}
 					}
 				}
 			}
-			if len(set) != len(slots) && len(o.prevSaved) == len(slots) {
+			set := saved
+			if fromTx {
 				set = o.prevSaved
+			}
+			if len(set) != len(slots) {
+				set = nil
 			}
 			o.sizedFrom[snap] = set
 			continue
@@ -249,7 +263,9 @@ func (o *OracleC17) AfterBlock(c *Chain, b *BlockCtx) []*Violation {
 			if haveInj {
 				for i, op := range inj.OracleAttestations.OperatorAddresses {
 					if i < len(inj.OracleAttestations.Snapshots) && i < len(inj.OracleAttestations.Attestations) && string(inj.OracleAttestations.Snapshots[i]) == snap && bytes.Equal(inj.OracleAttestations.Attestations[i], slots[j]) {
-						sender = op
+						if sender == "" || (set != nil && j < len(set) && bytes.Equal(curEVM[op], set[j].Addr)) {
+							sender = op
+						}
 					}
 				}
 			}
@@ -261,7 +277,14 @@ func (o *OracleC17) AfterBlock(c *Chain, b *BlockCtx) []*Violation {
 				continue // the set the array was sized from is unknown (snapshot older than this oracle's view)
 			}
 			if j >= len(set) || !bytes.Equal(curEVM[sender], set[j].Addr) {
-				out = append(out, o.v(b.H, "state", "SnapshotToAttestationsMap", "attestation-in-foreign-slot", "snapshot %x: attestation sent by %s landed in slot %d of a slot array sized from the set %v, where that slot belongs to another member", []byte(snap)[:4], sender, j, fmtSet(set)))
+				cls := "attestation-in-foreign-slot"
+				// diagnosis: the slot is the sender's position in the set saved NOW (a checkpoint update happened
+				// between the snapshot's creation and the arrival of the attestation)
+				// (PreBlocker runs at the start of the block: the set saved at the end of the previous block)
+				if j < len(o.prevSaved) && bytes.Equal(curEVM[sender], o.prevSaved[j].Addr) && !sameSet(o.prevSaved, set) {
+					cls += ":indexed-by-current-set-after-checkpoint-update"
+				}
+				out = append(out, o.v(b.H, "state", "SnapshotToAttestationsMap", cls, "snapshot %x: attestation sent by %s (evm %x) landed in slot %d of a slot array sized from the set %v (set saved when the attestation arrived: %v), where that slot belongs to another member", []byte(snap)[:4], sender, curEVM[sender][:3], j, fmtSet(set), fmtSet(o.prevSaved)))
 			}
 		}
 	}
